@@ -10,6 +10,7 @@ import (
 	"path/filepath"
 	"sort"
 	"strings"
+	"verifharness/chk"
 
 	"verifharness/plug"
 )
@@ -67,6 +68,7 @@ replace verifharness => %s
 	if err := os.WriteFile(filepath.Join(w.Mod, "go.sum"), sum, 0o644); err != nil {
 		return nil, err
 	}
+	chk.AtExit(w.Close)
 	return w, nil
 }
 
